@@ -8,6 +8,7 @@ N1  ``return next((e for x in D if c), default)``           ->  ``for x in D: if
 N2  a list comprehension that calls a helper which must be run in place (a private helper or local closure with
     statement effects / loops)                              ->  the accumulator loop it abbreviates
 N4  ``for x in X: acc.append(x)``                               ->  ``acc.extend(X)``
+N7  ``for x in _private_generator(..): body``                    ->  the generator's body with ``x = <yielded>; body`` at every yield
 N6  ``for i, y in enumerate(<generator>): body``                 ->  ``cnt = 0; for y in <generator>: i = cnt; cnt += 1; body``
 N5  ``for y in (f(x) for x in D if c): body``                    ->  ``for x in D: if c: y = f(x); body``
 N3  a call of such a helper in expression position          ->  hoisted into ``tmp = helper(...)`` right before the statement
@@ -149,6 +150,9 @@ class _Ctx:
             counted = self._enumerate_loop(st)
             if counted is not None:
                 return self.block(counted)
+            unfolded = self._generator_loop(st)
+            if unfolded is not None:
+                return self.block(unfolded)
             mapped = self._mapped_loop(st)
             if mapped is not None:
                 return self.stmt(mapped)
@@ -229,6 +233,107 @@ class _Ctx:
                  any(isinstance(t, ast.Name) and t.id == name for t in (n.targets if isinstance(n, ast.Assign) else [n.target]))]
         params = {a.arg for a in ast.walk(self.root) if isinstance(a, ast.arg)}
         return bool(binds) and name not in params and all(isinstance(b.value, (ast.List, ast.ListComp)) for b in binds)
+
+    # -- N7 -------------------------------------------------------------------------------------------
+    def _generator_loop(self, st: ast.For) -> Optional[List[ast.stmt]]:
+        """``for x in _gen(a, b): body`` over a private generator function  ->  the generator's body with every ``yield e`` replaced by
+        ``x = e; body`` (parameters bound first, the generator's own names kept apart)"""
+        it = st.iter
+        if not isinstance(it, ast.Call) or st.orelse:
+            return None
+        d = self.helper_def(it)
+        if d is None or not any(isinstance(n, ast.Yield) for n in ast.walk(d)):
+            return None
+        if any(isinstance(n, (ast.YieldFrom, ast.Return, ast.Try, ast.With)) for n in ast.walk(d)):
+            return None
+        if any(isinstance(n, (ast.Break, ast.Continue, ast.Return, ast.Yield)) for b in st.body for n in ast.walk(b)):
+            return None
+        # every yield must be an expression statement of its own
+        for n in ast.walk(d):
+            if isinstance(n, ast.Yield):
+                pass
+        ys = [n for n in ast.walk(d) if isinstance(n, ast.Expr) and isinstance(n.value, ast.Yield)]
+        if len(ys) != len([n for n in ast.walk(d) if isinstance(n, ast.Yield)]) or any(y.value.value is None for y in ys):
+            return None
+        if any(isinstance(a, ast.Starred) for a in it.args) or any(k.arg is None for k in it.keywords) or d.args.vararg or d.args.kwarg:
+            return None
+        self.n += 1
+        pre = f"__qcl_g{self.n}_"
+        params = [a.arg for a in d.args.posonlyargs + d.args.args + d.args.kwonlyargs]
+        is_method = isinstance(it.func, ast.Attribute) and params and params[0] in ("self", "cls") and not any(
+            isinstance(x, ast.Name) and x.id == "staticmethod" for x in d.decorator_list)
+        own = set(params)
+        for n in ast.walk(d):
+            if isinstance(n, ast.Name) and isinstance(n.ctx, ast.Store):
+                own.add(n.id)
+        if is_method:
+            own.discard(params[0])
+        ren = {n: pre + n for n in own}
+        binds: List[ast.stmt] = []
+        formal = params[1:] if is_method else params
+        given = dict(zip(formal, it.args))
+        if len(it.args) > len(formal):
+            return None
+        for k in it.keywords:
+            given[k.arg] = k.value
+        positional = [a.arg for a in d.args.posonlyargs + d.args.args]
+        defaults = dict(zip(positional[::-1], d.args.defaults[::-1]))
+        for a, dv in zip(d.args.kwonlyargs, d.args.kw_defaults):
+            if dv is not None:
+                defaults[a.arg] = dv
+        for name in formal:
+            v = given.get(name, defaults.get(name))
+            if v is None:
+                return None
+            binds.append(ast.Assign(targets=[ast.Name(id=ren[name], ctx=ast.Store())], value=v))
+        self_expr = it.func.value if is_method else None
+
+        def rename(node: ast.AST) -> ast.AST:
+            new = copy.copy(node)
+            if isinstance(new, ast.Name):
+                if is_method and new.id == params[0] and self_expr is not None:
+                    return copy.copy(self_expr)
+                if new.id in ren:
+                    new.id = ren[new.id]
+                return new
+            for field, val in ast.iter_fields(node):
+                if isinstance(val, ast.AST):
+                    setattr(new, field, rename(val))
+                elif isinstance(val, list):
+                    setattr(new, field, [rename(x) if isinstance(x, ast.AST) else x for x in val])
+            return new
+
+        def unfold(stmts: List[ast.stmt]) -> List[ast.stmt]:
+            out: List[ast.stmt] = []
+            for s_ in stmts:
+                if isinstance(s_, ast.Expr) and isinstance(s_.value, ast.Constant):
+                    continue
+                if isinstance(s_, ast.Expr) and isinstance(s_.value, ast.Yield):
+                    out.append(ast.Assign(targets=[st.target], value=rename(s_.value.value)))
+                    out.extend(copy.deepcopy(st.body))
+                    continue
+                if isinstance(s_, (ast.If, ast.For, ast.While)):
+                    n2 = copy.copy(s_)
+                    if isinstance(s_, ast.If):
+                        n2.test = rename(s_.test)
+                    elif isinstance(s_, ast.For):
+                        n2.target, n2.iter = rename(s_.target), rename(s_.iter)
+                    else:
+                        n2.test = rename(s_.test)
+                    n2.body = unfold(s_.body)
+                    n2.orelse = unfold(s_.orelse)
+                    out.append(n2)
+                    continue
+                out.append(rename(s_))
+            return out
+
+        res = binds + unfold(list(d.body))
+        for n in res:
+            for m in ast.walk(n):
+                if not hasattr(m, "lineno") or True:
+                    ast.copy_location(m, st)
+            ast.fix_missing_locations(n)
+        return res
 
     # -- N6 -------------------------------------------------------------------------------------------
     def _enumerate_loop(self, st: ast.For) -> Optional[List[ast.stmt]]:
